@@ -55,9 +55,11 @@ fn case_json(c: &Case) -> Json {
 
 const TOKEN_LEN: usize = 4;
 
-fn get_t(mtype: u8, mid: u16, path: &[&str], block2: Option<(u32, bool, u8)>) -> Vec<u8> {
+fn get_t(mtype: u8, method: u8, mid: u16, path: &[&str], block2: Option<(u32, bool, u8)>) -> Vec<u8> {
     let token = [(mid >> 8) as u8, mid as u8, 0x5A, 0xA5];
-    request_bytes(mtype, 0x01, mid, &token, path, &[], None, block2, &[])
+    // FETCH and POST carry a (small) request body in every request of the transfer
+    let body: &[u8] = if method == 0x01 { &[] } else { &[0x7B, 0x7D] };
+    request_bytes(mtype, method, mid, &token, path, &[], None, block2, body)
 }
 
 /// Runs one complete transfer; returns Err((signature, what)) on the first oracle failure.
@@ -69,7 +71,9 @@ pub fn transfer(c: &Case, rep: &mut Report) -> Result<&'static str, (String, Str
     clock::reset();
     let mtype = c.mtype;
     let app_code = c.app_code;
-    let get = move |mid: u16, path: &[&str], block2: Option<(u32, bool, u8)>| get_t(mtype, mid, path, block2);
+    // the method rides on the application option set (no extra dimension): GET, GET, FETCH, POST, GET, ...
+    let method: u8 = [0x01, 0x01, 0x05, 0x02][c.optset % 4];
+    let get = move |mid: u16, path: &[&str], block2: Option<(u32, bool, u8)>| get_t(mtype, method, mid, path, block2);
     let app_opts = opts.clone();
     // start state 2 runs the transfer under test on the two-segment resource /r/s, so that resources whose paths
     // coincide with it once the segments are joined, re-split or reordered are really different keys
@@ -79,7 +83,7 @@ pub fn transfer(c: &Case, rep: &mut Report) -> Result<&'static str, (String, Str
         // the resource "r" serves the body under test, everything else serves another body
         let path: Vec<&[u8]> = call.request.options.iter().filter(|o| o.0 == 11).map(|o| &o.1[..]).collect();
         let on_test_path = if two_segments { path.len() == 2 && path[0] == b"r" && path[1] == b"s" } else { path.len() == 1 && path[0] == b"r" };
-        if on_test_path && call.ep == 1 && call.request.mid >= 1000 {
+        if on_test_path && call.ep == 1 && call.request.mid >= 1000 && call.request.code == method {
             AppReply { code: app_code, options: app_opts.clone(), payload: the_body.clone() }
         } else {
             AppReply { code: 0x45, options: vec![], payload: other_body.clone() }
